@@ -28,7 +28,7 @@ impl Sub for HashPoint {
         let len = prop_oneof![
             1 => Just(0usize), 1 => Just(1usize), 1 => Just(40usize),
             2 => 134usize..=138, 2 => 270usize..=274, 1 => 406usize..=410,
-            8 => 2usize..=400,
+            8 => 2usize..=700,
             1 => prop_oneof![1000usize..=1100, 4090usize..=4100, 8186usize..=8200, 65530usize..=65540],
         ];
         let content = prop_oneof![
